@@ -11,6 +11,8 @@ from .dataflow import Reaching, local_defs, own_nodes, own_statements, params_of
 from .match import Expander, norm, text
 from .report import Report
 from .schema import Schema
+from .flat import flat as _flat2
+from .paths import return_paths as _rp
 from .source import AnalysisError, Call, ClassInfo, Project, dotted, parent
 
 HEADER = "ofxtools.header"
@@ -265,9 +267,6 @@ def h_r1(p: Project, rep: Report):
     ok = bool(offd) and all(d.kind == "unpack" and d.index == 1 and isinstance(d.value, ast.Call) and text(d.value.func) == "OFXHeaderV1.parse" and text(d.value.args[0]) == "rawheader" for d in offd)
     rep.check("H-R1", "parse_header:offset-from-parse(rawheader)", ok, "" if ok else "the offset is not the match end of OFXHeaderV1.parse(rawheader)", hloc(p, fn))
     # OFXHeaderBase.parse returns headermatch.end() of a match on its argument
-    from .flat import flat as _flat2
-    from .paths import return_paths as _rp
-
     pfn0 = p.get_class(HEADER, "OFXHeaderBase").own_func("parse")
     pfn = _flat2(p, HEADER, pfn0, p.get_class(HEADER, "OFXHeaderBase"))
     rps_, _x = _rp(pfn, expander=Expander(pfn))
